@@ -140,7 +140,7 @@ end Prim
 
 /-! ### guards (from the translator) -/
 
-open OnosVerif.Generated (GField GGuard)
+open OnosVerif.Generated.StoreFacts (GField GGuard)
 
 abbrev Guard := GGuard
 
@@ -164,7 +164,7 @@ def verZero : Guard := ⟨.version, true⟩
 inductive Meth | create | update | updateStatus
 deriving DecidableEq, Repr
 
-open OnosVerif.Generated in
+open OnosVerif.Generated.StoreFacts in
 def guards : Kind → Meth → List Guard
   | .tx2, .create => v2TxCreateGuards | .tx2, .update => v2TxUpdateGuards | .tx2, .updateStatus => v2TxUpdateStatusGuards
   | .prop2, .create => v2PropCreateGuards | .prop2, .update => v2PropUpdateGuards | .prop2, .updateStatus => v2PropUpdateStatusGuards
@@ -172,7 +172,7 @@ def guards : Kind → Meth → List Guard
   | .tx3, .create => v3TxCreateGuards | .tx3, .update => v3TxUpdateGuards | .tx3, .updateStatus => v3TxUpdateStatusGuards
   | .cfg3, .create => v3CfgCreateGuards | .cfg3, .update => v3CfgUpdateGuards | .cfg3, .updateStatus => v3CfgUpdateStatusGuards
 
-open OnosVerif.Generated in
+open OnosVerif.Generated.StoreFacts in
 /-- the field passed to `IfVersion` by `Update` / `UpdateStatus`. -/
 def ifVersionField : Kind → Meth → GField
   | .tx2, .update => v2TxUpdateIfVersion | .tx2, .updateStatus => v2TxUpdateStatusIfVersion
@@ -187,7 +187,7 @@ def ifVersionField : Kind → Meth → GField
 def ifVersionOf (k : Kind) (m : Meth) (o : Obj) : Nat :=
   if ifVersionField k m = .version then o.version else 0
 
-open OnosVerif.Generated in
+open OnosVerif.Generated.StoreFacts in
 def revisionInc : Kind → Meth → Bool
   | .tx2, .update => v2TxUpdateRevisionInc | .tx2, .updateStatus => v2TxUpdateStatusRevisionInc
   | .prop2, .update => v2PropUpdateRevisionInc | .prop2, .updateStatus => v2PropUpdateStatusRevisionInc
@@ -196,24 +196,24 @@ def revisionInc : Kind → Meth → Bool
   | .cfg3, .update => v3CfgUpdateRevisionInc | .cfg3, .updateStatus => v3CfgUpdateStatusRevisionInc
   | _, .create => false
 
-open OnosVerif.Generated in
+open OnosVerif.Generated.StoreFacts in
 /-- `Append` (indexed log) or `Insert` (plain map). -/
 def createIndexed : Kind → Bool
   | .tx2 => v2TxCreateAppends | .prop2 => v2PropCreateAppends | .cfg2 => v2CfgCreateAppends
   | .tx3 => v3TxCreateAppends | .cfg3 => v3CfgCreateAppends
 
-open OnosVerif.Generated in
+open OnosVerif.Generated.StoreFacts in
 /-- `obj.Revision = n` of `Create`. -/
 def createRevision : Kind → Nat
   | .tx2 => v2TxCreateRevision | .prop2 => v2PropCreateRevision | .cfg2 => v2CfgCreateRevision
   | .tx3 => v3TxCreateRevision | .cfg3 => v3CfgCreateRevision
 
-open OnosVerif.Generated in
+open OnosVerif.Generated.StoreFacts in
 def createDefaults : Kind → List Guard
   | .tx2 => v2TxCreateDefaults | .prop2 => v2PropCreateDefaults | .cfg2 => v2CfgCreateDefaults
   | .tx3 => v3TxCreateDefaults | .cfg3 => v3CfgCreateDefaults
 
-open OnosVerif.Generated in
+open OnosVerif.Generated.StoreFacts in
 /-- configuration stores: `s.store(…)` (the values half) is called before the entry compare-and-set. -/
 def valuesBeforeCas : Kind → Meth → Bool
   | .cfg2, .update => v2CfgUpdateValuesFirst | .cfg2, .updateStatus => v2CfgUpdateStatusValuesFirst
